@@ -43,6 +43,7 @@ def build(E, tier):
     hm.verify_hash_single(E)
     hmany.verify_hash_ctor(E, "C16")
     hmany.verify_ctor_defaults(E, "C16")
+    hmany.verify_aliases(E, "C16")
     from . import clientmodel as cm
     cm.verify_client_ctor(E, "C16")
     hmany.verify_hash_many(E, prop="C16")
